@@ -6,6 +6,9 @@
 #include <cmath>
 #define VT_DECLARE_VTABLE(ident, mangled) extern "C" void *vt_vtbl_##ident[] asm(mangled);
 namespace ob = ompl::base;
+#ifndef DRANGE
+#define DRANGE 15
+#endif
 typedef ob::TimeStateSpace T;
 typedef ob::DiscreteStateSpace D;
 alignas(16) static char t_buf[sizeof(T)], d_buf[sizeof(D)];
@@ -46,8 +49,15 @@ extern "C" void harness_time_distance()
     VT_CHECK(vt_same_bits(ab, sp->T::distance(&b, &a)), "distance is symmetric");
     VT_CHECK(sp->T::distance(&a, &a) == 0.0, "distance from a state to itself is zero");
     if (!sp->T::equalStates(&a, &b)) VT_CHECK(ab > 0.0, "distance is positive between states that are not equal");
-    if (g_bounded) VT_CHECK(ab <= sp->T::getMaximumExtent(), "distance never exceeds the maximum extent");
     vt_cover("time distance end");
+}
+extern "C" void harness_time_extent()
+{
+    T *sp = tspace();
+    T::StateType a, b;
+    a.position = tin(); b.position = tin();
+    if (g_bounded) VT_CHECK(sp->T::distance(&a, &b) <= sp->T::getMaximumExtent(), "distance never exceeds the maximum extent");
+    vt_cover("time extent end");
 }
 extern "C" void harness_time_triangle()
 {
@@ -102,7 +112,14 @@ extern "C" void harness_time_interp()
     a.position = tin(); b.position = tin();
     double t = vt_double_in(0.0, 1.0);
     sp->T::interpolate(&a, &b, t, &c);
+#ifdef VT_EXCL_KF_LERP_ROUNDOFF
+    {   // known finding excluded: only a relative round-off tolerance is demanded
+        double tol = 1e-9 * (1.0 + std::fabs(a.position) + std::fabs(b.position));
+        VT_CHECK(!g_bounded || (c.position >= g_tmin - tol && c.position <= g_tmax + tol), "interpolated state is within bounds");
+    }
+#else
     VT_CHECK(sp->T::satisfiesBounds(&c), "interpolated state is within bounds");
+#endif
     sp->T::interpolate(&a, &b, 0.0, &c);
     VT_CHECK(c.position == a.position, "t=0 yields the first state");
     vt_cover("time interp end");
@@ -164,7 +181,7 @@ extern "C" void harness_discrete_interp()
 {
     D *sp = dspace();
     D::StateType a, b, c;
-    VT_ASSUME(g_dlo >= -1000 && g_dhi <= 1000);
+    VT_ASSUME(g_dlo >= -(DRANGE) && g_dhi <= (DRANGE));
     a.value = din(); b.value = din();
     double t = vt_double_in(0.0, 1.0);
     sp->D::interpolate(&a, &b, t, &c);
